@@ -305,7 +305,9 @@ def gen_program(rng, cls):
             t = " bogus%d" % g.nid
             g.faults[g.nid] = dict(kind="unk", col=2, warn=False, num=KIND_NUM["unk"], rep=True)
             main = [("fault", "unk", g.nid, t, [t])] + main
-        top = [("plain", " cpu z80", [" cpu z80"])] + [("mdef", n, macros[n]) for n, _ in g.macros] + main + [("plain", " nop", [" nop"])]
+        # the file usually ends with an error-free line; sometimes the last line of the main file is the faulty one
+        tail = [] if (main and main[-1][0] == "fault" and rng.random() < 0.5) else [("plain", " nop", [" nop"])]
+        top = [("plain", " cpu z80", [" cpu z80"])] + [("mdef", n, macros[n]) for n, _ in g.macros] + main + tail
         n = count_msgs(top, macros, g.faults)
         if 1 <= n <= 250:
             return g, top, macros, n
@@ -318,7 +320,12 @@ def file_texts(g, top):
     for name, body in [("main.asm", top)] + sorted(g.files.items()):
         ls = []
         render_body(g, body, ls)
-        files[name] = "".join(p + "\n" for pieces in ls for p in pieces)
+        # line ends: LF or CR-LF per file, and the last line of a file may come without a line end - line numbers do not depend on either
+        eol = "\r\n" if g.rng.random() < 0.15 else "\n"
+        txt = "".join(p + eol for pieces in ls for p in pieces)
+        if txt and g.rng.random() < 0.3:
+            txt = txt[:-len(eol)]
+        files[name] = txt
         phys[name] = [len(p) for p in ls]
     return files, phys
 
